@@ -84,9 +84,9 @@ def _check_1d(desc, tier, V, st):
         R, RL = ref[der]
         t = _tol(S, c, der)
         want = R @ c
-        bad = np.abs(got - want) > t
+        bad = ~(np.abs(got - want) <= t)          # NaN counts as wrong
         if RL is not None:
-            bad &= np.abs(got - RL @ c) > t
+            bad &= ~(np.abs(got - RL @ c) <= t)
         return not bad.any(), (float(np.abs(got - want).max()), float(X[int(np.argmax(np.abs(got - want)))]))
     for name, c in vecs:
         spl = Spline1D(bs)
@@ -123,7 +123,7 @@ def _check_1d(desc, tier, V, st):
                 ok, info = agree(sc, c, der)
                 if not ok:
                     V('1d-eval-scalar:der%d' % der, '%s coeffs=%s: Spline1D.eval(scalar,der=%d) off by %.3g at x=%r' % (key, name, der, info[0], info[1]))
-                if name.startswith('e') and der == 0 and got.min() < -_tol(S, c, 0):
+                if name.startswith('e') and der == 0 and not (got.min() >= -_tol(S, c, 0)):
                     V('basis-negative', '%s: basis function %s takes the value %.3g' % (key, name, got.min()))
             except Exception as e:  # noqa
                 V('1d-exception:' + type(e).__name__, '%s coeffs=%s der=%d: %s: %s' % (key, name, der, type(e).__name__, e))
@@ -148,9 +148,9 @@ def _check_1d(desc, tier, V, st):
                 V('getitem-eval:der%d' % der, '%s: BSplines[%d].eval(der=%d) off by %.3g at x=%r' % (key, i, der, info[0], info[1]))
         if S.per:
             a_, b_ = float(X[0]), float(X[-1])
-            if abs(b.eval(a_, 0) - b.eval(b_, 0)) > 2 * _tol(S, c, 0):
+            if not (abs(b.eval(a_, 0) - b.eval(b_, 0)) <= 2 * _tol(S, c, 0)):
                 V('periodic-values-differ', '%s: BSplines[%d] S(a)=%r S(b)=%r' % (key, i, b.eval(a_, 0), b.eval(b_, 0)))
-            if S.d >= 2 and abs(b.eval(a_, 1) - b.eval(b_, 1)) > 2 * _tol(S, c, 1):
+            if S.d >= 2 and not (abs(b.eval(a_, 1) - b.eval(b_, 1)) <= 2 * _tol(S, c, 1)):
                 V('periodic-slopes-differ', '%s: BSplines[%d] S\'(a)=%r S\'(b)=%r' % (key, i, b.eval(a_, 1), b.eval(b_, 1)))
     # control flow must not depend on the coefficients (supports "a basis decides all data"): compare executed line traces
     if st.get('trace_budget', 0) > 0:
@@ -221,7 +221,7 @@ def _check_1d(desc, tier, V, st):
                     for der in (0, 1):
                         da = np.asarray(sa.eval(X, der)) - np.asarray(sb.eval(X, der))
                         t = 256 * EPS * cond * (S.d + 1) * (1.0 if der == 0 else S.d / float(min(S.br[k + 1] - S.br[k] for k in range(S.ncells))))
-                        if np.abs(da).max() > t:
+                        if not (np.abs(da).max() <= t):
                             V('paths-disagree:der%d' % der, '%s: interpolant of e%d differs between fast and general path by %.3g (tol %.3g)' % (key, i, np.abs(da).max(), t))
         except Exception as e:  # noqa
             V('paths-exception:' + type(e).__name__, '%s: %s: %s' % (key, type(e).__name__, e))
@@ -271,7 +271,7 @@ def _check_2d(da, db, tier, V, st):
                 except Exception as e:  # noqa
                     V('2d-exception:' + type(e).__name__, '%s der=(%d,%d): %s: %s' % (key, d1, d2, type(e).__name__, e))
                     break
-                if np.abs(got - want).max() > base:
+                if not (np.abs(got - want).max() <= base):
                     V('2d-eval-tensor:der%d%d' % (d1, d2), '%s e%d(x)e%d: Spline2D.eval(arrays,der=(%d,%d)) off by %.3g' % (key, i, j, d1, d2, np.abs(got - want).max()))
         for C in dense:
             sp.coeffs[:] = C
@@ -281,25 +281,25 @@ def _check_2d(da, db, tier, V, st):
             st['nontrivial'] += 4
             try:
                 got = sp.eval(Xs, Ys, d1, d2)
-                if np.abs(got - want).max() > t:
+                if not (np.abs(got - want).max() <= t):
                     V('2d-eval-tensor:der%d%d' % (d1, d2), '%s dense: Spline2D.eval(arrays,der=(%d,%d)) off by %.3g' % (key, d1, d2, np.abs(got - want).max()))
                 z = np.full(want.shape, np.nan)
                 sp.eval_vector(Xs, Ys, z, d1, d2)
-                if np.abs(z - want).max() > t:
+                if not (np.abs(z - want).max() <= t):
                     V('2d-eval_vector:der%d%d' % (d1, d2), '%s dense: Spline2D.eval_vector(der=(%d,%d)) off by %.3g' % (key, d1, d2, np.abs(z - want).max()))
                 ox = np.array(sorted(range(len(Xs)), key=lambda i: (i * 7919 + 13) % 10007))[::-1]
                 oy = np.array(sorted(range(len(Ys)), key=lambda i: (i * 104729 + 5) % 10007))
                 zo = np.full(want.shape, np.nan)
                 sp.eval_vector(np.ascontiguousarray(Xs[ox]), np.ascontiguousarray(Ys[oy]), zo, d1, d2)
-                if np.abs(zo - want[np.ix_(ox, oy)]).max() > t:
+                if not (np.abs(zo - want[np.ix_(ox, oy)]).max() <= t):
                     V('2d-array-order-dependent:der%d%d' % (d1, d2), '%s dense: Spline2D.eval_vector on scrambled point arrays off by %.3g' % (key, np.abs(zo - want[np.ix_(ox, oy)]).max()))
                 sc = np.array([[sp.eval(float(x), float(y), d1, d2) for y in Ys] for x in Xs])
-                if np.abs(sc - want).max() > t:
+                if not (np.abs(sc - want).max() <= t):
                     V('2d-eval-scalar:der%d%d' % (d1, d2), '%s dense: Spline2D.eval(scalars,der=(%d,%d)) off by %.3g' % (key, d1, d2, np.abs(sc - want).max()))
                 xx, yy = XX[np.ix_(xi, yi)].ravel(), YY[np.ix_(xi, yi)].ravel()
                 zv = np.full(xx.size, np.nan)
                 kern_vec(xx, yy, b1.knots, b1.degree, b2.knots, b2.degree, sp.coeffs, zv, d1, d2)
-                if np.abs(zv.reshape(want.shape) - want).max() > t:
+                if not (np.abs(zv.reshape(want.shape) - want).max() <= t):
                     V('2d-kernel-vector:der%d%d' % (d1, d2), '%s dense: *_eval_spline_2d_vector(der=(%d,%d)) off by %.3g' % (key, d1, d2, np.abs(zv.reshape(want.shape) - want).max()))
             except Exception as e:  # noqa
                 V('2d-exception:' + type(e).__name__, '%s der=(%d,%d): %s: %s' % (key, d1, d2, type(e).__name__, e))
